@@ -104,6 +104,18 @@ type Status struct {
 	State State
 }
 
+// verificationRound is a round of AppendEntries RPCs that is used to verify that
+// this node is still the leader.
+type verificationRound struct {
+	// The number of nodes, including this one, that have acknowledged the round.
+	numResponses int
+
+	// The linearizable read-only operations that were pending when the round was started.
+	// An operation submitted after the round was started must not be verified by it since
+	// the responses may stem from a time at which the operation had not been invoked yet.
+	operations []*Operation
+}
+
 // follower contains all state associated with followers.
 type follower struct {
 	// The next log index that should be sent to this node.
@@ -964,17 +976,22 @@ func (r *Raft) sendAppendEntriesToPeers() {
 		r.tryApplyReadOnlyOperations()
 	}
 
-	numResponses := 1
+	// Only the linearizable read-only operations that are already pending when this
+	// round of requests is started may be verified by the responses to it.
+	round := &verificationRound{
+		numResponses: 1,
+		operations:   r.operationManager.pendingLinearizableOperations(),
+	}
 	for id, address := range r.configuration.Members {
 		if id != r.id {
-			go r.sendAppendEntries(id, address, &numResponses)
+			go r.sendAppendEntries(id, address, round)
 		}
 	}
 }
 
 // sendAppendEntries sends an AppendEntries RPC to a node with the provided ID
 // and address.
-func (r *Raft) sendAppendEntries(id string, address string, numResponses *int) {
+func (r *Raft) sendAppendEntries(id string, address string, round *verificationRound) {
 	r.mu.Lock()
 	defer r.mu.Unlock()
 
@@ -1039,11 +1056,13 @@ func (r *Raft) sendAppendEntries(id string, address string, numResponses *int) {
 
 	// If the majority of cluster acknowledges the request, this node is a legitimate leader.
 	// Try to apply pending read-only operations.
-	if numResponses != nil {
-		*numResponses += 1
-		if r.hasQuorum(*numResponses) {
-			r.tryApplyReadOnlyOperations()
-			numResponses = nil
+	if round != nil {
+		round.numResponses++
+		if r.hasQuorum(round.numResponses) {
+			r.operationManager.markOperationsAsVerified(round.operations)
+			r.operationManager.leaderLease.renew()
+			r.readOnlyCond.Broadcast()
+			round = nil
 		}
 	}
 
